@@ -161,24 +161,20 @@ def reach_check(u, registry, tu_path, outdir, unwound=False):
         return None, 'reach: cannot list properties: %s' % e
     if pid is None:
         return None, 'reach: harness has no gv-reach-end assertion'
-    cmd = ['cbmc', b, '--property', pid, '--json-ui']
+    cmd = ['cbmc', b, '--property', pid]     # plain output: a trace over 2 MB objects in JSON is hundreds of MB
     if u.kind == 'bounded' and u.unwind is not None:
         cmd += ['--unwind', str(u.unwind)]
     if unwound:
         cmd += ['--unwind', str(u.fallback_unwind)]
     cmd += [f for f in u.flags if f.startswith('--object-bits') or f.startswith('--unwindset')]
-    if u.backend == 'smt':
+    if (u.reach_backend or u.backend) == 'smt':
         cmd += ['--cvc5']
     rc, out, dt = sh(cmd, u.reach_timeout)
     if rc == 'timeout':
-        return None, 'reach: SAT search for a witness timed out after %ds' % u.reach_timeout
-    try:
-        for item in json.loads(out):
-            for p in item.get('result', []):
-                if p['property'] == pid:
-                    return p['status'] == 'FAILURE', ''
-    except Exception as e:
-        return None, 'reach: unreadable output %s' % e
+        return None, 'reach: search for a witness timed out after %ds' % u.reach_timeout
+    m = re.search(r'^\[%s\].*: (SUCCESS|FAILURE)\s*$' % re.escape(pid), out, re.M)
+    if m:
+        return m.group(1) == 'FAILURE', ''
     return None, 'reach: property not in result'
 
 
